@@ -73,6 +73,45 @@ CHECKS.update(
     ),
 )
 
+TECH_M = "bounded model checking by symbolic execution of the real code against a reference model: operations chosen by solver-forked selectors, arguments symbolic, every step's claim an unsat z3 query"
+CHECKS.update(
+    C08=dict(
+        category="model_checking",
+        text="The real RenderIterator (generator included) is executed next to a reference model written from its documentation. Frame count "
+        "(>= 2, unbounded) or INDEFINITE, loops, all offsets, durations, sizes, padding dimensions, terminal size and render-argument values "
+        "are z3 variables; each step applies one of the nine public operations (forked selector). A prefix seek(a); next() with symbolic a "
+        "reaches every (next frame, loop countdown) state including the end-of-loop boundary, so k steps are checked from any reachable "
+        "state; after every operation frame fields, loop countdown, next frame and exception types must equal the model's.",
+        note="Trusted: the reference model (harness/iter_common.py), z3, engine (cross-checked against the unlifted code). Histories longer "
+        "than the stated k after the prefix, and cached iteration with more than 3 frames, are outside the claim.",
+        design="3 C08",
+        technique=TECH_M,
+    ),
+    C09=dict(
+        category="model_checking",
+        text="Relational check: two real RenderIterators (cache on/off) receive the same symbolic operation history; frames must be equal "
+        "term-for-term after every next(), outcomes (exceptions) equal, and on the cached side no frame may be rendered twice within an "
+        "epoch of unchanged settings (render log compared as z3 terms). The cache on/off decision is checked for every integer cache "
+        "argument. ImageIterator._animate's two-phase cache is run against per-position rendering with symbolic image-size changes.",
+        note="Trusted: z3, engine, injectivity of Python's tuple hash on the sizes compared (modelled as an injective uninterpreted "
+        "function). Frame counts 2-3, loops in {2, -1}, k-step histories (bound stated).",
+        design="3 C09",
+        technique=TECH_M + " (relational: cached vs uncached twin)",
+    ),
+    C10=dict(
+        category="model_checking",
+        text="render(), str(), draw() (still and animated) and RenderIterator histories (next, seek, close, drop reference, "
+        "_from_render_data_ with and without ownership) run on an instrumented renderable; the index of the failing frame render is a "
+        "z3 variable (the engine forks at every render), the failure kind and the outcome of size validation are solver-chosen. At the "
+        "end of every path each library-owned RenderData was finalized exactly once, caller-owned data never, no _render_ saw finalized "
+        "data, finished iterators stop and reject control operations.",
+        note="Trusted: CPython reference counting for __del__, z3, engine. Finalization is demanded when the operation ends or fails, "
+        "not deferred to garbage collection of data the caller never received.",
+        design="3 C10",
+        technique=TECH_M + " with a symbolic fault index",
+    ),
+)
+
 PENDING = {}
 
 
